@@ -16,6 +16,7 @@ Model: Octave/Model/FsProg.lean (`run`): each op is one atomic transition that m
 may happen before any op and inside `write`/`flush`/`close`/`mkdir -p`.
 -/
 import Octave.Lemmas.Run
+import Octave.Lemmas.Examples
 import Octave.Gen.WriteOps
 namespace Octave.C16
 open Octave
@@ -207,18 +208,7 @@ theorem C16_cliWrite (c : Call) (w : World) (fs : Fs) (hc : CallOK c fs) (hdry :
 
 /-! ### Non-vacuity: concrete runs of the generated program of WriteTool.execute -/
 
-/-- root `[]` and `[1]` are directories, `[1,2]` is the target holding "old" with mode 0o640. -/
-def fsEx : Fs := fun p =>
-  if p = [] then some .dir else if p = [1] then some .dir
-  else if p = [1, 2] then some (.file "old".toList 416 true) else none
-
-def callEx : Call :=
-  { target := [1, 2], tmpName := [1, 9], mode := .content, baseHash := some "old".toList,
-    canon := fun _ => "new".toList }
-
-theorem callEx_ok : CallOK callEx fsEx := ⟨by decide, by decide, by decide, by decide⟩
-
-def Hid : Data → Hash := fun d => d
+open Octave.Ex
 
 /-- The hypotheses are satisfiable and the success clause is not vacuous: the run succeeds, installs
 "new" with the old mode 0o640. -/
